@@ -134,8 +134,8 @@ CHECKS = {
         "level": "exploration",
         "exhaustive": True,
         "rule": "exhaustive walk of live package state: all 4 SM2 comb schemes incl. remainder tables (every point = Montgomery form of the stated multiple of G, computed by the reference model, limbs canonical), curve constants; SM4 sbox (algebraic derivation), s0..s3 = L(sbox<<24/16/8/0), ck, fk; SM3 Tj<<<(j mod 32), IV; amd64 assembly constants observed through execution: GFNI affine macro on all 256 bytes (and every lane), FK<>/CK<> recovered from expandKeyAsm outputs by inverting T', GHASH multiplier (GCM_POLY, bit-reversal masks, lane shuffles) on all 128x128 basis pairs in the 1-way regime and in the 4-way regime (all 8 block positions in thorough, one rotating position in quick); a class is (table, entry index mod 64 | constant family)",
-        "assumptions": ["reference models validated at start of every run", "arm64 data blocks (asm_arm64.s, gcm_arm64.s) cannot be executed in this sandbox and are not claimed", "Counter_Add*/Shuffle constants of gcm_amd64.s are exercised through C06 rather than isolated here"],
-        "units": [gt("internal", "./sm2/internal/", "TestVerifC18SM2"), gt("sm4", "./sm4/", "TestVerifC18SM4"), gt("sm3", "./sm3/", "TestVerifC18SM3")],
+        "assumptions": ["reference models validated at start of every run", "arm64 data blocks (asm_arm64.s, gcm_arm64.s) cannot be executed in this sandbox and are not claimed", "the static DATA blocks of the amd64 assembly (Shuffle, Shuffle1, Shuffle2, AND_MASK, LOWER_MASK, GCM_POLY, FK, CK, Counter_Add1..3) are additionally read from the running test binary's own memory at the addresses of its symbol table and compared with their derivations (reaches entries no realistic input length exercises); SHUFFLE_X_LANES / MERGE_H01 / MERGE_H23 are implementation-internal permutations without an external derivation and are judged only through execution (gHashBlocks, C06)"],
+        "units": [gt("internal", "./sm2/internal/", "TestVerifC18SM2"), gt("sm4", "./sm4/", "TestVerifC18SM4"), gt("sm3", "./sm3/", "TestVerifC18SM3"), {"name": "asmdata", "engine": "engine_asmdata"}],
     },
     "C17": {
         "level": "exploration",
